@@ -362,6 +362,11 @@ def build_inputs(ctx):
         cases.append(("partial-occupancy", g3.clash_partial(rng, rng.randint(2, 4)), None, ALL_OPTS))
     for _ in range(ctx.pick(20, 200)):
         cases.append(("partial-occupancy:icode-siblings", g3.icode_siblings(g3.clash_partial(rng, rng.randint(2, 3)), rng), None, ALL_OPTS))
+    for _ in range(ctx.pick(24, 200)):
+        st = g3.clash_coincident(rng)
+        if rng.random() < 0.4:
+            st = g3.random_occupancies(st, rng, 0.4)
+        cases.append(("coincident-atoms", st, None, ALL_OPTS if not ctx.quick else rng.sample(ALL_OPTS, 8)))
     cases += handmade()
     cases = [c for c in cases if g3.well_formed(c[1], allow_repeated_identity=c[0] == "split-residue") and c[1].residues]
     return cases
